@@ -28,7 +28,7 @@ VERIF = os.path.dirname(HERE)
 CACHE = os.environ.get('OPTREE_VERIF_CACHE') or os.path.join(VERIF, '.cache')
 CLANG = 'clang++-14'
 PYBIND_INC = '/venv/lib/python3.12/site-packages/torch/include'
-IR_VERSION = '15'
+IR_VERSION = '17'
 
 CONFIGS = {
     # name: (CPython include dir, extra flags)
@@ -581,20 +581,32 @@ def _is_pure(e):
     return True
 
 
+ALIAS_TYPES = ('bool', 'optree::PyTreeKind', 'PyTreeKind')
+
+
+def _pos(n):
+    return (n.file or '', n.line or 0, n.col or 0)
+
+
 def resolve_bool_locals(body):
-    """`const bool c = <pure test>; ... if (c)`: the condition is the test.  Where a condition (of
-    if / while / for / ?: and under !, &&, ||) names a const bool local whose initialiser is pure,
-    the IR shows the initialiser in its place, so the rules read the same test whether or not it
-    was given a name first.  A const local cannot change between its initialisation and the test,
-    but what its initialiser reads may: the substitution is made when nothing the initialiser
-    names is assigned anywhere in the function, or when the declaration is the init-statement of
-    the very if-statement that tests it."""
+    """`const bool c = <pure test>; ... if (c)`, `const auto k = node.kind; switch (k)`: the condition
+    is the test, the switch is on the field.  Where a condition (of if / switch / while / for / ?:)
+    names a const local of type bool or PyTreeKind whose initialiser is pure, the IR shows the
+    initialiser in its place, so the rules read the same test whether or not it was given a name
+    first.  A const local cannot change between its initialisation and the test, but what its
+    initialiser reads may; the substitution is made at a use when (a) nothing the initialiser names
+    is assigned anywhere in the function, or (b) no such assignment stands between the declaration
+    and the use in the source and the use is in no loop that the declaration is outside of (a
+    declaration inside a loop body is made afresh in every iteration), or (c) the declaration is
+    the init-statement of the very if / switch statement that tests it.  A declaration whose name is then read nowhere is dropped (or
+    marked as an alias, which every rule and the CFG treat as a no-op)."""
     if body is None:
         return
     decls = {}
+    decl_node = {}
     for n in body.walk():
-        if n.kind == 'VarDecl' and n.id is not None and n.kids and \
-                (n.type or '').replace(' ', '') in ('constbool', 'boolconst'):
+        if n.kind == 'VarDecl' and n.id is not None and n.kids and (n.type or '').startswith('const ') and \
+                (n.type or '')[6:].strip() in ALIAS_TYPES:
             init = n.kids[-1]
             # `static_cast<bool>(test)` / `bool(test)`: the test itself (a condition converts to
             # bool contextually anyway)
@@ -602,22 +614,22 @@ def resolve_bool_locals(body):
                                                      'CStyleCastExpr') and init.kids and \
                     (init.type or '').replace('const ', '').strip() == 'bool':
                 init = init.kids[-1]
-            if init is not None and _is_pure(init):
+            if init is not None and init.kind != 'InitListExpr' and _is_pure(init):
                 decls[n.id] = init
+                decl_node[n.id] = n
     if not decls:
         return
 
     def names(e):
         out = set()
         for n in e.walk():
-            if n.kind == 'DeclRefExpr' and (n.ref or {}).get('name'):
+            if n.kind == 'DeclRefExpr' and (n.ref or {}).get('name') and \
+                    (n.ref or {}).get('kind') != 'EnumConstantDecl':
                 out.add(n.ref['name'])
             elif n.kind == 'MemberExpr' and n.name:
                 out.add('.' + n.name)
         return out
-    # what the body assigns somewhere: a named test over such a value is only the same test where
-    # it is evaluated, i.e. in the if-statement's own init-statement
-    assigned = set()
+    assigned = {}          # name -> latest source position of an assignment to it
     for n in body.walk():
         tgt = None
         if n.kind in ('BinaryOperator', 'CompoundAssignOperator') and \
@@ -628,30 +640,70 @@ def resolve_bool_locals(body):
         elif n.kind == 'CXXOperatorCallExpr' and n.callee_name() == 'operator=' and len(n.kids) > 1:
             tgt = n.kids[1]
         if tgt is not None:
-            assigned |= {x for x in names(tgt)}
+            for x in names(tgt):
+                assigned[x] = max(assigned.get(x, ('', 0, 0)), _pos(n))
     own_init = {}
     for n in body.walk():
-        if n.kind == 'IfStmt' and (n.x or {}).get('hasInit') and n.kids and n.kids[0] is not None:
+        if n.kind in ('IfStmt', 'SwitchStmt') and (n.x or {}).get('hasInit') and n.kids and n.kids[0] is not None:
             for v in n.kids[0].walk():
                 if v.kind == 'VarDecl' and v.id in decls:
                     own_init[v.id] = n
-    stable = {vid for vid, init in decls.items() if not (names(init) & assigned)}
+    # all assignment positions per name, and the loops that enclose each node
+    assigned_all = {}
+    for n in body.walk():
+        tgt = None
+        if n.kind in ('BinaryOperator', 'CompoundAssignOperator') and \
+                (n.op == '=' or n.kind == 'CompoundAssignOperator') and n.kids:
+            tgt = n.kids[0]
+        elif n.kind == 'UnaryOperator' and n.op in ('++', '--') and n.kids:
+            tgt = n.kids[0]
+        elif n.kind == 'CXXOperatorCallExpr' and n.callee_name() in ('operator=', 'operator++', 'operator--') \
+                and len(n.kids) > 1:
+            tgt = n.kids[1]
+        if tgt is not None:
+            for x in names(tgt):
+                assigned_all.setdefault(x, []).append(_pos(n))
+    loops_of = {}
+
+    def mark(n, stack):
+        loops_of[id(n)] = stack
+        inner = stack + (id(n),) if n.kind in ('ForStmt', 'WhileStmt', 'DoStmt', 'CXXForRangeStmt') else stack
+        for k in n.kids:
+            if k is not None and k.kind != 'LambdaExpr':
+                mark(k, inner)
+    mark(body, ())
+
+    def stable_at(vid, use):
+        """(b) no assignment to anything the initialiser reads stands between the declaration and
+        this use, and the use is in no loop the declaration is outside of"""
+        d = decl_node[vid]
+        dl, ul = loops_of.get(id(d), ()), loops_of.get(id(use), ())
+        if ul[:len(dl)] != dl or len(ul) > len(dl):
+            # the use sits in a loop that does not contain the declaration: an assignment later in
+            # that loop's body would reach the use again
+            if any(assigned_all.get(x) for x in names(decls[vid])):
+                return False
+        lo, hi = _pos(d), _pos(use)
+        for x in names(decls[vid]):
+            if any(lo < p <= hi for p in assigned_all.get(x, ())):
+                return False
+        return True
 
     def subst(e, owner=None):
         if e is None:
             return e
         if e.kind == 'DeclRefExpr' and (e.ref or {}).get('id') in decls:
             vid = e.ref['id']
-            if vid in stable or (owner is not None and own_init.get(vid) is owner):
+            if (owner is not None and own_init.get(vid) is owner) or stable_at(vid, e):
                 return decls[vid]
             return e
-        if (e.kind == 'UnaryOperator' and e.op == '!') or \
-                (e.kind == 'BinaryOperator' and e.op in ('&&', '||')):
-            e.kids = [subst(k, owner) for k in e.kids]
+        if e.kind == 'LambdaExpr':
+            return e
+        e.kids = [subst(k, owner) if k is not None else None for k in e.kids]
         return e
     for n in body.walk():
         x = n.x or {}
-        if n.kind == 'IfStmt':
+        if n.kind in ('IfStmt', 'SwitchStmt'):
             i = (1 if x.get('hasInit') else 0) + (1 if x.get('hasVar') else 0)
             if i < len(n.kids):
                 n.kids[i] = subst(n.kids[i], n)
@@ -666,17 +718,15 @@ def resolve_bool_locals(body):
         elif n.kind == 'DoStmt' and len(n.kids) >= 2:
             n.kids[1] = subst(n.kids[1])
     # a name that is now read nowhere stood for its test only: its declaration is dropped from an
-    # if-statement's init-statement, or marked as an alias (a no-op for every rule) where it is a
-    # statement of its own
+    # init-statement, or marked as an alias (a no-op for every rule) where it is a statement of
+    # its own
     used = set()
-    declared_in = set()
     for n in body.walk():
         if n.kind == 'DeclRefExpr' and (n.ref or {}).get('id') in decls:
             used.add(n.ref['id'])
-    # the initialisers that were spliced into conditions still contain their own operands only
     dead = {vid for vid in decls if vid not in used}
     for n in body.walk():
-        if n.kind == 'IfStmt' and (n.x or {}).get('hasInit') and n.kids and n.kids[0] is not None:
+        if n.kind in ('IfStmt', 'SwitchStmt') and (n.x or {}).get('hasInit') and n.kids and n.kids[0] is not None:
             vds = [v for v in n.kids[0].walk() if v.kind == 'VarDecl']
             if vds and all(v.id in dead for v in vds):
                 n.kids = n.kids[1:]
